@@ -808,6 +808,9 @@ class SystemZPreOCF(PreOCF):
         signature_symbols = self.symbolize_bitvec(world)
         solver = Solver(name="z3")
         [solver.add_assertion(s) for s in signature_symbols]
+        if self._z_partition == []:
+            # empty belief base: no conditional can be falsified
+            return 0
         return self._rec_z_rank(solver, len(self._z_partition) - 1)
 
     def _rec_z_rank(self, solver: Solver, partition_index: int) -> int:
